@@ -726,3 +726,55 @@ def coverage_compile_spec(k):
     cov2.decompile(OB.OTTableReader(data), font)
     ob('decompile:same-set', sorted(cov2.glyphs) == sorted(cov.glyphs))
     ob('decompile:same-list-when-sorted', cov2.glyphs == cov.glyphs or not conj([lt(covered[i], covered[i + 1]) for i in range(k - 1)]))
+
+
+# ------------------------------------------------------------------------------------------------ COLR v1 clip list
+CLIP_PATTERNS = {
+    # glyph name -> clip box id; glyph ids are a symbolic permutation of 0..5, so which glyphs are neighbours (one range) or apart (several ranges) is a solver fork
+    'shared+own': {'g0': 'A', 'g1': 'A', 'g2': 'B'},
+    'three-shared': {'g0': 'A', 'g1': 'A', 'g2': 'A', 'g3': 'B'},
+    'two-boxes': {'g0': 'A', 'g1': 'A', 'g2': 'B', 'g3': 'B'},
+}
+
+
+@kernel('C02', funcs=['ttLib/tables/otTables.py:ClipList.preWrite', 'ttLib/tables/otTables.py:ClipList.groups', 'ttLib/tables/otTables.py:ClipBox.as_tuple'],
+        bounds='COLR v1 ClipList over a 6-glyph font whose glyph ids are a SYMBOLIC permutation, 3-4 glyphs with clip boxes from 3 patterns (glyphs sharing a box, a glyph '
+               'with its own box, glyphs without box): in the ClipRecord array produced for the writer, read by the OpenType rule (the record whose [StartGlyphID, '
+               'EndGlyphID] contains the glyph id), every glyph has exactly its own box, glyphs without a box have none - also when glyphs sharing a box are not '
+               'neighbours and a differently boxed or unboxed glyph lies between them - and the records are sorted and disjoint; box coordinates are concrete',
+        shims=['dict keyed by symbolic (start, end) pairs: collide mode'], quick=[dict(pat='shared+own')], thorough=[dict(pat=p) for p in CLIP_PATTERNS],
+        collide=True, max_paths=100000)
+def clip_list_ranges(pat):
+    font = SymFont(6)
+    boxes = {}
+    for bid, coords in (('A', (0, 0, 100, 100)), ('B', (10, 20, 300, 400))):
+        b = OT.ClipBox()
+        b.Format = 1
+        b.xMin, b.yMin, b.xMax, b.yMax = coords
+        boxes[bid] = b
+    cl = OT.ClipList()
+    cl.Format = 1
+    cl.clips = {}
+    for nm, bid in CLIP_PATTERNS[pat].items():
+        import copy
+        cl.clips[nm] = copy.copy(boxes[bid])
+    raw = cl.preWrite(font)
+    recs = raw['ClipRecord']
+    observe('n_records', len(recs))
+    ob('count-field', raw['ClipCount'] == len(recs))
+    ob('spec:records-sorted-and-disjoint', conj([le(r.StartGlyphID, r.EndGlyphID) for r in recs] + [lt(recs[i].EndGlyphID, recs[i + 1].StartGlyphID) for i in range(len(recs) - 1)]))
+    conds = []
+    for nm in font.names:
+        gid = font.getGlyphID(nm)
+        want = CLIP_PATTERNS[pat].get(nm)
+        for r in recs:
+            inside = conj([le(r.StartGlyphID, gid), le(gid, r.EndGlyphID)])
+            if want is None:
+                conds.append(neg(inside))
+            else:
+                same = r.ClipBox.as_tuple() == boxes[want].as_tuple()
+                if not same:
+                    conds.append(neg(inside))
+        if want is not None:
+            conds.append(disj([conj([le(r.StartGlyphID, gid), le(gid, r.EndGlyphID)]) for r in recs if r.ClipBox.as_tuple() == boxes[want].as_tuple()]))
+    ob('spec:every-glyph-gets-exactly-its-own-box', conj(conds))
